@@ -7,11 +7,12 @@ ROOT = os.path.dirname(os.path.dirname(os.path.abspath(__file__)))
 props = [json.loads(l) for l in open(os.path.join(ROOT, "properties.jsonl"))]
 NA = json.load(open(os.path.join(ROOT, "not_applicable.json")))
 PY = "/venv/bin/python"
+READY = set(json.load(open(os.path.join(ROOT, "ready.json"))))
 checks, claimed = [], set()
 for p in props:
     pid = p["id"]
     path = os.path.join(ROOT, "sfverif", "rules", pid.lower() + ".py")
-    if not os.path.exists(path):
+    if not os.path.exists(path) or pid not in READY:
         continue
     mod = importlib.import_module(f"sfverif.rules.{pid.lower()}")
     meta = getattr(mod, "META", {})
